@@ -36,6 +36,7 @@ CONSTANTS DFiles,               \* design model: segment file names
           SyncBeforeRename,     \* metadb.go    tmp db committed (fdatasync) before rename
           CompleteBeforeRename, \* metadb.go    every write of the initialisation precedes the rename
           DirSyncAfterRename,   \* metadb.go    safeInitBoltDB fsyncs the directory after rename
+          TrustLeftoverTmp,     \* (deviation) a leftover wal-meta.db.tmp that looks complete is renamed as it is
           BUG_ReopenLosesNew    \* pinned code: fs.OpenWriter returns a plain *os.File, so a segment
                                 \* created by an earlier Open never gets its directory fsync
 
@@ -74,7 +75,10 @@ CoreInit == /\ files = <<>> /\ dirp = {} /\ win = NoWin /\ gen = 0 /\ req = 0 /\
 (* when the name is not there yet.                                          *)
 OpenCreat(name, kind, excl) ==
   LET isnew == name \notin DOMAIN files
-      rec == [kind |-> kind, dirty |-> 0, ext |-> 0, tot |-> 0, dirDur |-> FALSE, excl |-> excl,
+      \* a temporary database planted by the driver stands for the remains of an initialisation that was killed:
+      \* whatever it holds is not known to be durable (dirty) until somebody fsyncs it outside the harness window
+      rec == [kind |-> kind, dirty |-> IF InHarness /\ kind = "metatmp" THEN 1 ELSE 0,
+              ext |-> 0, tot |-> IF InHarness /\ kind = "metatmp" THEN 1 ELSE 0, dirDur |-> FALSE, excl |-> excl,
               prealloc |-> IF InHarness THEN req ELSE -1, gen |-> gen, extern |-> InHarness]
   IN /\ files' = IF isnew THEN Put(files, name, rec) ELSE files
      /\ dirp' = IF isnew THEN dirp \cup {[k |-> "create", name |-> name]} ELSE dirp
@@ -120,7 +124,7 @@ PWrite(name, off, len, via) ==
 
 (* fsync / fdatasync of a regular file *)
 FSyncFile(name) ==
-  /\ files' = IF name \in DOMAIN files THEN [files EXCEPT ![name].dirty = 0] ELSE files
+  /\ files' = IF name \in DOMAIN files /\ ~InHarness THEN [files EXCEPT ![name].dirty = 0] ELSE files
   /\ nv' = {}
   /\ UNCHANGED <<dirp, win, gen, req, fresh>>
 
@@ -243,8 +247,10 @@ Begin(ms, h2) == cl' = [cl EXCEPT !.pc = ms, !.h = h2, !.nops = @ + 1]
 
 (* metadb.BoltMetaDB.Load on a directory without a database: safeInitBoltDB *)
 MetaInitSeq ==
-  <<M("creat", MetaTmp, "metatmp"), M("pwrite", MetaTmp, "metatmp")>>
-  \o (IF SyncBeforeRename THEN <<M("fsync", MetaTmp, "")>> ELSE <<>>)
+  (IF MetaTmp \in DOMAIN files /\ TrustLeftoverTmp THEN <<>>       \* "only the rename was missing"
+   ELSE (IF MetaTmp \in DOMAIN files THEN <<M("unlink", MetaTmp, "")>> ELSE <<>>)       \* os.RemoveAll(tmp)
+        \o <<M("creat", MetaTmp, "metatmp"), M("pwrite", MetaTmp, "metatmp")>>
+        \o (IF SyncBeforeRename THEN <<M("fsync", MetaTmp, "")>> ELSE <<>>))
   \o <<M("rename", MetaTmp, MetaName)>>
   \o (IF CompleteBeforeRename THEN <<>> ELSE <<M("pwrite", MetaName, "metatmp"), M("fsync", MetaName, "")>>)
   \o (IF DirSyncAfterRename THEN <<M("fsyncdir", "", "")>> ELSE <<>>)
@@ -259,6 +265,16 @@ DOpen ==
                                ELSE IF BUG_ReopenLosesNew THEN "plain" ELSE "new0"],
        !.nops = @ + 1, !.isopen = TRUE]
   /\ UNCHANGED cvars
+
+(* an earlier process was killed inside safeInitBoltDB: a temporary database is lying around *)
+DLeftover ==
+  /\ Idle /\ ~cl.isopen /\ gen = 0 /\ MetaName \notin DOMAIN files /\ MetaTmp \notin DOMAIN files
+  /\ files' = Put(files, MetaTmp, [kind |-> "metatmp", dirty |-> 1, ext |-> 1, tot |-> 1, dirDur |-> FALSE, excl |-> FALSE,
+                                   prealloc |-> -1, gen |-> 0, extern |-> TRUE])
+  /\ dirp' = dirp \cup {[k |-> "create", name |-> MetaTmp]}
+  /\ nv' = {}
+  /\ cl' = [cl EXCEPT !.nops = @ + 1]
+  /\ UNCHANGED <<win, gen, req, fresh>>
 
 DClose ==
   /\ Idle /\ cl.isopen
@@ -328,7 +344,7 @@ DStep ==
           [] m.sc = "unlink"   -> Unlink(m.f) /\ cl' = rest
           [] m.sc = "rename"   -> Rename(m.f, m.op, "meta") /\ cl' = rest
 
-DNext == \/ DOpen \/ DClose \/ DStep
+DNext == \/ DOpen \/ DClose \/ DStep \/ DLeftover
          \/ \E f \in DFiles : DCreate(f) \/ DStore(f) \/ DDelete(f)
 
 Spec == DInit /\ [][DNext]_<<cvars, cl>>
